@@ -207,7 +207,7 @@ func ruleC07b(c *Ctx, rule string) {
 func init() {
 	register(&PropSpec{
 		ID:          "C07",
-		Explanation: "Decides the structural clause 'asOf and until are never confused and the range check precedes planning': role colouring of every store/argument/return that carries a time bound by name across six packages; positional wiring of asOfUntilFor/resolutionFor; TIMERANGE from/to → AsOf/Until; the asOf-before-table-asOf error precedes planning; the default window derives from the clock and the retention period. Added clauses: purity of the window operators; a window shorter than one stored period is rejected by the finer-than-source test on the window itself.",
+		Explanation: "Decides the structural clause 'asOf and until are never confused and the range check precedes planning': role colouring of every store/argument/return that carries a time bound by name across six packages; positional wiring of asOfUntilFor/resolutionFor; TIMERANGE from/to → AsOf/Until; the asOf-before-table-asOf error precedes planning; the default window derives from the clock and the retention period. Added clauses: purity of the window operators; a window shorter than one stored period is rejected by the finer-than-source test on the window itself. Further clauses: ParseDuration's component loop carries only the remaining text and the total; the planner's Now is the database clock.",
 		NotDecided:  []string{"the three rounding rules (RoundTimeUp / UntilUp / UntilDown) at period boundaries", "Truncate/SubMerge alignment cases (values)"},
 		Assumptions: []string{"carrier roles follow the identifiers asOf/until, AsOf/Until, GetAsOf/GetUntil used consistently in this code base"},
 		Rules:       []func(*Ctx){func(c *Ctx) { ruleC07a(c, "C07.a") }, func(c *Ctx) { ruleC07b(c, "C07.b") }, func(c *Ctx) { ruleC07c(c, "C07.c") }, func(c *Ctx) { rulePurity(c, "C07.d") }, func(c *Ctx) { ruleC07e(c, "C07.e") }, func(c *Ctx) { ruleC07f(c, "C07.f") }, func(c *Ctx) { ruleC07g(c, "C07.g") }},
